@@ -433,6 +433,9 @@ def emit(design, connect_order=None, connect_style=None, block_order=None):
   if design.get("shadow_globals"):
     # module-level names that coincide with block-local loop variables / closure constants (python scoping: local > closure > global)
     L += [f"{nm_} = {val}" for nm_, val in design["shadow_globals"]] + [""]
+  kd = sorted(set(re.findall(r"KD\.D(\d+)", json.dumps(design["classes"]))), key=int)
+  if kd:
+    L += ["import enum", "class KD(enum.IntEnum):"] + [f"  D{n} = {n}" for n in kd] + [""]
   for tn, fields in design["types"].items():
     L += ["@bitstruct", f"class {tn}:"] + [f"  {fn}: {type_text(ft)}" for fn, ft in fields]
     dfl = design.get("type_defaults", {}).get(tn)
@@ -1234,6 +1237,10 @@ class Gen:
             if k.get("p_attr_bounds") and rng.random() < k["p_attr_bounds"]:
               # ... or as constant ATTRIBUTES of the component ( s.x[s.NBA2:s.NBA6] )
               lo = f"s.NBA{st[1]}" if rng.random() < 0.6 else str(st[1]); hi = f"s.NBA{st[2]}"
+              if rng.random() < 0.5:
+                # ... or as members of a module-level IntEnum, reached through a dotted name ( s.x[KD.D2:KD.D6] )
+                lo = lo.replace("s.NBA", "KD.D"); hi = hi.replace("s.NBA", "KD.D")
+                self.design.setdefault("stats", {}).setdefault("dotted_name_bounds_in_blocks", 0); self.design["stats"]["dotted_name_bounds_in_blocks"] += 1
               self.design.setdefault("stats", {}).setdefault("attribute_bounds_in_blocks", 0); self.design["stats"]["attribute_bounds_in_blocks"] += 1
             o["steps"] = o["steps"][:-1] + [st + [None, ["ex", lo, hi]]]
             self.design.setdefault("stats", {}).setdefault("expression_bounds_in_blocks", 0); self.design["stats"]["expression_bounds_in_blocks"] += 1
